@@ -1,14 +1,14 @@
 import ClaripyProofs.Lemmas.VSA.ConvertProved
 import ClaripyProofs.Lemmas.VSA.AlignedConcat
 /-!
-The alignment guard of `convBV_rest_good` (`alBV` / `alB`: the abstract operands of every `==`, `!=`, `*` node and the divisor
-of every `%` node are aligned) is DISCHARGED syntactically: every interval operation the backend dispatches to returns an
+The alignment guard of `convBV_rest_good` (`alBV` / `alB`: the abstract operands of every `==`, `!=`, `*` node are aligned) is
+DISCHARGED syntactically: every interval operation the backend dispatches to returns an
 aligned interval when its operands are aligned (`Lemmas/VSA/Aligned*.lean`), several return one whatever the operands are.
 
 * `alSrc anno e` — a syntactic sufficient condition for "the abstract value of `e` is aligned": the annotations of the variables
-  that reach the root through `+ | concat If zext sext extract`, the left operand of `- % << >> >>>`, are aligned; everything below
+  that reach the root through `+ | % concat If zext sext extract`, the left operand of `- << >> >>>`, are aligned; everything below
   a `neg ~ & ^ /u *` node is irrelevant (these operations always return aligned intervals).
-* `guardFreeBV/B anno e` — at every `==` / `!=` / `*` node both operands, at every `%` node the divisor, satisfy `alSrc`.
+* `guardFreeBV/B anno e` — at every `==` / `!=` / `*` node both operands satisfy `alSrc` (`%` needs no guard: `mod_sound_full`).
 
 `alBV_of_guardFree`: `guardFree → alBV` (for ASTs with a value at every node, over normal annotations).
 -/
@@ -19,7 +19,7 @@ def needA : BinOp → Bool
   | .add | .or | .sub | .urem | .shl | .lshr | .ashr => true
   | _ => false
 def needB : BinOp → Bool
-  | .add | .or => true
+  | .add | .or | .urem => true
   | _ => false
 
 /-- syntactic sufficient condition for the abstract value to be aligned -/
@@ -37,13 +37,12 @@ def alSrc (anno : Nat → SI) : BV → Prop
   | .ite _ a b => alSrc anno a ∧ alSrc anno b
 
 mutual
-/-- every operand position that needs alignment (`==`, `!=`, `*`: both; `%`: the divisor) satisfies `alSrc` -/
+/-- every operand position that needs alignment (`==`, `!=`, `*`: both operands) satisfies `alSrc` -/
 def guardFreeBV (anno : Nat → SI) : BV → Prop
   | .var _ _ => True
   | .free _ _ => True
   | .const _ _ => True
-  | .bin op a b => guardFreeBV anno a ∧ guardFreeBV anno b ∧ (op = .mul → alSrc anno a) ∧
-      (op = .mul ∨ op = .urem → alSrc anno b)
+  | .bin op a b => guardFreeBV anno a ∧ guardFreeBV anno b ∧ (op = .mul → alSrc anno a) ∧ (op = .mul → alSrc anno b)
   | .neg a => guardFreeBV anno a
   | .not a => guardFreeBV anno a
   | .zext _ a => guardFreeBV anno a
@@ -104,7 +103,7 @@ are (for `*` and `%` the guard of the node supplies what `needA`/`needB` do not 
 theorem bin_aligned (op : BinOp) (a b r : SI) (o o' : Orders) (wa : a.WF) (wb : b.WF) (hbits : a.bits = b.bits)
     (hab : a.bottom = false) (hbb : b.bottom = false) (na : Nrm a) (nb : Nrm b)
     (hA : needA op = true → a.Aligned) (hB : needB op = true → b.Aligned)
-    (hmul : (op = .mul → a.Aligned) ∧ (op = .mul ∨ op = .urem → b.Aligned))
+    (hmul : (op = .mul → a.Aligned) ∧ (op = .mul → b.Aligned))
     (h : applyBin op a b o = .ok (r, o')) : r.Aligned := by
   cases op
   · -- add
@@ -119,7 +118,7 @@ theorem bin_aligned (op : BinOp) (a b r : SI) (o o' : Orders) (wa : a.WF) (wb : 
     simp only [applyBin] at h
     obtain ⟨r1, h1, h⟩ := bind_ok _ _ _ h
     have := pure_ok _ _ h; cases this
-    exact mul_aligned a.bits a b r ⟨wa, rfl⟩ ⟨wb, hbits.symm⟩ hab hbb (hmul.1 rfl) (hmul.2 (Or.inl rfl)) na nb h1
+    exact mul_aligned a.bits a b r ⟨wa, rfl⟩ ⟨wb, hbits.symm⟩ hab hbb (hmul.1 rfl) (hmul.2 rfl) na nb h1
   · -- udiv
     cases o with
     | nil => simp only [applyBin] at h; cases h
@@ -132,7 +131,7 @@ theorem bin_aligned (op : BinOp) (a b r : SI) (o o' : Orders) (wa : a.WF) (wb : 
     simp only [applyBin] at h
     obtain ⟨r1, h1, h⟩ := bind_ok _ _ _ h
     have := pure_ok _ _ h; cases this
-    exact mod_aligned a.bits a b r ⟨wa, rfl⟩ ⟨wb, hbits.symm⟩ hab hbb (hA rfl) (hmul.2 (Or.inr rfl)) h1
+    exact mod_aligned a.bits a b r ⟨wa, rfl⟩ ⟨wb, hbits.symm⟩ hab hbb (hA rfl) (hB rfl) h1
   · -- and
     simp only [applyBin] at h
     obtain ⟨r1, h1, h⟩ := bind_ok _ _ _ h
